@@ -76,6 +76,13 @@ def gen_rule_for(rng, world, name, depth=None):
         # the same check in another spelling (redundant parentheses): NOT
         # textually equal, so it governs like any other override
         return ['paren', copy.deepcopy(d['dep']['ast'])]
+    regd = [d for d in world['defaults'] if d['name'] == name]
+    if regd and rng.random() < 0.1:
+        # a file rule that restates the registered default (a "redundant"
+        # rule, possibly in another spelling): still a definition of its
+        # layer, and still an operator override for deprecation handling
+        a = copy.deepcopy(regd[0]['ast'])
+        return ['paren', a] if rng.random() < 0.3 else a
     if depth is None:
         depth = rng.choice((0, 0, 1, 1, 2, 3))
     return rast.gen(rng, roles, _ref_pool(world, name), depth)
@@ -240,7 +247,9 @@ def gen_layout(rng, w, flavour):
               'value': rng.choice(('policy.yaml', 'policy.yaml',
                                    'custom.yaml')),
               'fallback': rng.random() < 0.8,
-              'ctor': 'ctor.yaml' if rng.random() < 0.15 else None}
+              'ctor': rng.choice(('ctor.yaml', 'ctor.yaml', 'policy.yaml',
+                                  'custom.yaml'))
+              if rng.random() < 0.2 else None}
         if pf['how'] == 'untouched':
             pf['value'] = 'policy.yaml'
     else:
@@ -542,7 +551,8 @@ class Model:
             d = self.reg.get(name)
             if d and d['scope'] and self.w['conf']['enforce_scope'] and \
                     name in eff:
-                tok = 'system' if system else 'project'
+                tok = 'system' if system is True else \
+                    'domain' if system == 'domain' else 'project'
                 if tok not in d['scope']:
                     return False
             return bool(rast.ev(a, set(roles), lookup))
@@ -562,7 +572,8 @@ def probes_for(w):
         for s in subsets:
             out.append((n, s, False))
             if scoped:
-                out.append((n, s, True))
+                out.append((n, s, True))          # system-scoped token
+                out.append((n, s, 'domain'))      # domain-scoped token
     return out
 
 
@@ -773,12 +784,16 @@ class DiskSim:
         if c.get('creds_as_context'):
             from oslo_context import context
             creds = context.RequestContext(
-                roles=list(roles), system_scope='all' if system else None,
+                roles=list(roles),
+                system_scope='all' if system is True else None,
+                domain_id='d-1' if system == 'domain' else None,
                 project_id=None if system else 'p-1', overwrite=False)
         else:
             creds = {'roles': list(roles)}
-            if system:
+            if system is True:
                 creds['system'] = 'all'
+            elif system == 'domain':
+                creds['domain_id'] = 'd-1'
         fn = e.enforce
         if c.get('use_authorize') and name in self.model.reg:
             fn = e.authorize
